@@ -22,6 +22,8 @@ EX(n)    == Op("EX", n, 0)        \* Execute the handle obtained for n: renders 
 AG(v)    == Op("AG", "g", v)      \* AddGlobal("g", v)
 LG       == Op("LG", "g", 0)      \* LookupGlobal("g")
 LS(n, v) == Op("LS", n, v)        \* loader.Set(n, version v)
+PA(n)    == Op("PA", n, 0)        \* Set.Parse of a template that extends n: looks n up, never caches
+EXI(n)   == Op("EXI", n, 0)       \* Execute a (pre-parsed) template whose body is {{include "n"}}: run-time lookup, caches
 
 Names == {"a", "b"}
 
@@ -46,29 +48,43 @@ Finish(p, res) == /\ pc' = [pc EXCEPT ![p] = @ + 1] /\ phase' = [phase EXCEPT ![
 Log(p, step) == sched' = Append(sched, <<p, step>>)
 
 \* GetTemplate, step 1: probe the cache
+Lookups == {"GT", "PA", "EXI"}
+\* what a finished lookup of version v yields for the operation
+ResultOf(o, v) == IF o.k = "EXI" THEN 10 * v + glob ELSE v
+\* Execute of the including template first reaches its include action
+ExecIncludeStart(p) ==
+  /\ Running(p) /\ Cur(p).k = "EXI" /\ phase[p] = "start"
+  /\ phase' = [phase EXCEPT ![p] = "lookup"]
+  /\ Log(p, "exec") /\ UNCHANGED <<prog, pc, handle, files, cache, glob, results>>
 CacheGet(p) ==
-  /\ Running(p) /\ Cur(p).k = "GT" /\ phase[p] = "start"
+  /\ Running(p) /\ Cur(p).k \in Lookups
+  /\ phase[p] = (IF Cur(p).k = "EXI" THEN "lookup" ELSE "start")
   /\ LET n == Cur(p).n IN
      IF cache[n] # 0
-     THEN /\ handle' = [handle EXCEPT ![p][n] = cache[n]] /\ Finish(p, cache[n])
+     THEN /\ handle' = [handle EXCEPT ![p][n] = IF Cur(p).k = "GT" THEN cache[n] ELSE @]
+          /\ Finish(p, ResultOf(Cur(p), cache[n]))
      ELSE /\ phase' = [phase EXCEPT ![p] = "exists"] /\ UNCHANGED <<pc, handle, results>>
   /\ Log(p, "cget") /\ UNCHANGED <<prog, files, cache, glob>>
 \* step 2: loader.Exists
 LoaderExists(p) ==
-  /\ Running(p) /\ Cur(p).k = "GT" /\ phase[p] = "exists"
+  /\ Running(p) /\ Cur(p).k \in Lookups /\ phase[p] = "exists"
   /\ phase' = [phase EXCEPT ![p] = "open"]
   /\ Log(p, "lexists") /\ UNCHANGED <<prog, pc, handle, files, cache, glob, results>>
 \* step 3: loader.Open + read + parse: the version of the file as it is now
 LoaderOpen(p) ==
-  /\ Running(p) /\ Cur(p).k = "GT" /\ phase[p] = "open"
-  /\ handle' = [handle EXCEPT ![p][Cur(p).n] = files[Cur(p).n]]
-  /\ phase' = [phase EXCEPT ![p] = "put"]
-  /\ Log(p, "lopen") /\ UNCHANGED <<prog, pc, files, cache, glob, results>>
+  /\ Running(p) /\ Cur(p).k \in Lookups /\ phase[p] = "open"
+  /\ LET n == Cur(p).n  v == files[n] IN
+     IF Cur(p).k = "PA"
+     THEN \* Parse never caches what it pulls in: the lookup ends here
+          /\ Finish(p, v) /\ UNCHANGED handle
+     ELSE /\ handle' = [handle EXCEPT ![p][n] = v]
+          /\ phase' = [phase EXCEPT ![p] = "put"] /\ UNCHANGED <<pc, results>>
+  /\ Log(p, "lopen") /\ UNCHANGED <<prog, files, cache, glob>>
 \* step 4: cache.Put
 CachePut(p) ==
-  /\ Running(p) /\ Cur(p).k = "GT" /\ phase[p] = "put"
+  /\ Running(p) /\ Cur(p).k \in {"GT", "EXI"} /\ phase[p] = "put"
   /\ cache' = [cache EXCEPT ![Cur(p).n] = handle[p][Cur(p).n]]
-  /\ Finish(p, handle[p][Cur(p).n])
+  /\ Finish(p, ResultOf(Cur(p), handle[p][Cur(p).n]))
   /\ Log(p, "cput") /\ UNCHANGED <<prog, handle, files, glob>>
 
 \* Execute: reads the global once; result is <<template version, global value>> (encoded 10*version + value)
@@ -89,20 +105,23 @@ LoaderSet(p) ==
   /\ files' = [files EXCEPT ![Cur(p).n] = Cur(p).v] /\ Finish(p, 0)
   /\ Log(p, "lset") /\ UNCHANGED <<prog, handle, cache, glob>>
 
-Next == \E p \in Procs : CacheGet(p) \/ LoaderExists(p) \/ LoaderOpen(p) \/ CachePut(p) \/ Execute(p)
+Next == \E p \in Procs : ExecIncludeStart(p) \/ CacheGet(p) \/ LoaderExists(p) \/ LoaderOpen(p) \/ CachePut(p) \/ Execute(p)
                           \/ AddGlobal(p) \/ LookupGlobal(p) \/ LoaderSet(p)
 Spec == Init /\ [][Next]_vars /\ WF_vars(Next)
 
 AllDone == \A p \in Procs : ~Running(p)
 \* no goroutine is ever stuck: as long as one has work left, some step is enabled
 NoDeadlock == AllDone \/ ENABLED Next
+\* Set.Parse never adds to the cache: only GetTemplate and run-time includes do
+ParseNeverCaches == [][ \A p \in Procs : (Running(p) /\ Cur(p).k = "PA" /\ pc'[p] = pc[p] + 1) => cache' = cache ]_vars
 \* a cached template is a version that was actually in the loader, and every handle a goroutine holds is a real version
 CacheSound == \A n \in Names : cache[n] \in 0..3
 \* every GetTemplate succeeds with an existing version; every Execute renders its own template version and a global value
 \* that was current at some point (serial results)
 SerialResults == \A p \in Procs : \A i \in 1..Len(results[p]) :
                     LET o == prog[p][i]  r == results[p][i] IN
-                    /\ o.k = "GT" => r \in 1..3
+                    /\ o.k \in {"GT", "PA"} => r \in 1..3
+                    /\ o.k = "EXI" => (r \div 10) \in 1..3 /\ (r % 10) \in 0..3
                     /\ o.k = "EX" => (r \div 10) \in 1..3 /\ (r % 10) \in 0..3
 Terminates == <>AllDone
 
